@@ -314,7 +314,7 @@ class C14(HttpProp):
 # ------------------------------------------------------------------ request grid (C15, C20)
 def grid_requests(rng, tier, client=1):
     """grammar-generated requests: route x method x client-id form x path-id form x content-type x body class"""
-    routes = ["index", "av", "gcv", "as", "snap", "unknown1", "unknown2", "unknown3", "unknown4", "avq", "gcvq", "asq", "snapq",
+    routes = ["index", "av", "gcv", "as", "snap", "unknown1", "unknown2", "unknown3", "unknown4", "star", "dslash", "avq", "gcvq", "asq", "snapq",
               "avp", "gcvp", "asp", "snapp"]
     methods = ["GET", "POST", "PUT", "DELETE", "HEAD", "PATCH", "GET/1.0", "POST/1.0", "OPTIONS"]
     cids = ["absent"] + [f"{f}={client}" for f in BAD_CID_FORMS] + [f"{f}={client}" for f in ("hyph", "upper", "simple", "braced", "urn")] + ["hyph=fresh"]
@@ -369,6 +369,10 @@ def grid_requests(rng, tier, client=1):
         reqs.append(f"http GET gcv hyph=fresh hyph={client} absent e xh={xh}")
         reqs.append(f"http POST av hyph=fresh hyph={client} history b:5 xh={xh}")
         reqs.append(f"http GET snap - absent absent e xh={xh}")
+    # request targets that are not a path (asterisk form) or start with a doubled slash, every method
+    for m in ("OPTIONS", "GET", "POST", "HEAD", "PUT", "DELETE", "GET/1.0"):
+        for route in ("star", "dslash"):
+            reqs.append(f"http {m} {route} - hyph={client} absent e")
     # refused requests of a client the server has never seen (nothing may be created for it)
     for body in ("e", "e1"):
         reqs += [f"http POST av hyph=nil hyph=fresh history {body}", f"http POST as hyph=nil hyph=fresh snapshot {body}",
